@@ -28,6 +28,7 @@ from .c03 import appended_part
 from .c03 import r3_4
 from .c05 import op_classes
 from .c05 import op_name
+from .common import own_params
 from .common import callee_name
 from .common import calls
 from .common import expand_locals
@@ -82,7 +83,7 @@ def r20_3(ctx: Ctx) -> RuleResult:
     ep = patch_cls.methods.get("_ensure_pointer")
     if ep is None:
         raise AnalysisError("JSONPatch._ensure_pointer not found")
-    param = ep.node.args.args[1].arg
+    param = own_params(ep)[0]
     rets = [r for r in ast.walk(ep.node) if isinstance(r, ast.Return)]
     passthrough = [r for r in rets if path_of(r.value) == param]
     roundtrip = [
@@ -335,6 +336,26 @@ def r20_8(ctx: Ctx) -> RuleResult:
                        "address the matched location", construct=f"{how} at {where} raises")
                 continue
             want = edited(parts, how)
+            if rfc6902.jeq(got, want) and how == "test" and isinstance(text, str) and "\\" not in text and not any(len(str(p_)) > 15 for p_ in parts) \
+                    and (node is None or node is False or node == 0 or node == "" or node == [] or node == {}):  # noqa: PLR2004
+                # ... and as a patch *document* (what `json patch` and JSON text give): a `test` whose value is null / false /
+                # 0 / empty is an operation like any other
+                from .model import _ConstructorRaises
+
+                model_d = Model(ctx, "R20.8")
+                model_d.whole_bodies = model_d.auto_construct = model_d.exact_exceptions = model_d.heap = True
+                doc_d = _copy.deepcopy(EDIT_DOC)
+                try:
+                    patch_d = model_d.new("jsonpath.patch.JSONPatch", [{"op": "test", "path": text, "value": _copy.deepcopy(node)}])
+                    got_d = model_d.call(patch_d, "apply", [doc_d])
+                except _ConstructorRaises:
+                    got_d = RAISES
+                if got_d is UNKNOWN:
+                    raise AnalysisError(f"R20.8: the result of the patch document `test` at {where} cannot be determined")
+                if got_d is RAISES:
+                    rr.bad(pfn, pfn.node, f"the patch document [{{'op': 'test', 'path': {text!r}, 'value': {node!r}}}] - the matched value at the match's own pointer - is "
+                           f"refused: {str(model_d.last_raised).split('.')[-1]}", construct=f"document test at {where} raises")
+                    continue
             if rfc6902.jeq(got, want):
                 rr.ok(pfn.loc(), f"{how} at {where} via {text!r}")
             else:
